@@ -231,7 +231,7 @@ pub fn touch_packet(p: &Packet, n: usize) -> Result<(), String> {
 /// C01 on one byte string: every entry point returns, every accessor returns, iterators finish.
 /// calls every parse entry point once (no accessor): used to tell a panic *in parsing* (C01 only) from a panic in an
 /// accessor of an accepted value
-pub fn parse_entry_points(b: &[u8]) {
+pub fn parse_entry_points(b: &[u8], with_compound: bool) {
     let _ = App::parse(b).is_ok();
     let _ = Bye::parse(b).is_ok();
     let _ = Sdes::parse(b).is_ok();
@@ -254,6 +254,9 @@ pub fn parse_entry_points(b: &[u8]) {
     let _ = Unknown::parse(b).is_ok();
     let _ = Packet::parse(b).is_ok();
     let _ = ReportBlock::parse(b).is_ok();
+    if !with_compound {
+        return;
+    }
     if let Ok(c) = Compound::parse(b) {
         // the iterator parses each tile; bounded by the number of tiles
         let mut n = 0usize;
